@@ -185,6 +185,13 @@ class FileWeave:
         meta["line"] = self.line_of(s)
         return self._add("replace", s, e, text, rule, meta)
 
+    def copy(self, s, e, target, pre="", suf="", rule="W8", **meta):
+        """emit the text of [s,e) (with the edits inside it) once more at `target`; the original stays where it is
+        unless another edit removes it"""
+        meta = dict(meta)
+        meta["line"] = self.line_of(s)
+        return self._add("copy", s, e, "", rule, meta, target=target, pre=pre, suf=suf)
+
     def move(self, s, e, target, pre="", suf="", rule="W4", **meta):
         meta = dict(meta)
         meta["line"] = self.line_of(s)
@@ -205,6 +212,8 @@ class FileWeave:
                 if ed.s in rep_at:
                     raise WeaveError("%s: two rewrites start at byte %d" % (self.rel, ed.s))
                 rep_at[ed.s] = ed
+            elif ed.kind == "copy":
+                mov_to.setdefault(ed.target, []).append(ed)
             else:
                 if ed.s in mov_at:
                     raise WeaveError("%s: two moves start at byte %d" % (self.rel, ed.s))
@@ -312,6 +321,6 @@ class Weave:
         for rel, fw in self.files.items():
             for ed in fw.edits:
                 log.append({"eid": ed.eid, "file": rel, "kind": ed.kind, "rule": ed.rule, "s": ed.s, "e": ed.e,
-                            "line": fw.line_of(ed.s), "text": ed.text if ed.kind != "move" else (ed.pre + " ... " + ed.suf),
+                            "line": fw.line_of(ed.s), "text": ed.text if ed.kind not in ("move", "copy") else (ed.pre + " ... " + ed.suf),
                             "meta": ed.meta, "target": ed.target})
         return log
